@@ -69,10 +69,15 @@ structure R9View where
   abs : Array Nat
   rel : Array Nat
 
+/-- lanes of width `w` packed into one number, lowest lane first -/
+def packL (w : Nat) : List Nat → Nat
+  | [] => 0
+  | c :: cs => c + 2 ^ w * packL w cs
+
 /-- packed relative counters of the block starting at word `w0`: 7 fields of 9 bits,
-field `j` (`1 ≤ j ≤ 7`) at bit `9 * (j xor 7) = 9 * (7 - j)` -/
+field `j` (`1 ≤ j ≤ 7`) at bit `9 * (j xor 7) = 9 * (7 - j)`, i.e. lane `i` holds field `7 - i` -/
 def r9Rel (ob : Nat → Nat) (w0 : Nat) : Nat :=
-  (List.range 7).foldl (fun acc t => acc + (ob (w0 + t + 1) - ob w0) * 2 ^ (9 * (6 - t))) 0
+  packL 9 ((List.range 7).map (fun i => ob (w0 + (7 - i)) - ob w0))
 
 /-- `Rank9::new`: one counter per 8 words plus the final one holding the total -/
 def r9View (ob : Nat → Nat) (len : Nat) : R9View :=
@@ -106,10 +111,9 @@ structure SmallView where
   rel : Array Nat
 
 /-- `all_rel()` of the block starting at word `w0`: field `t` (`1 ≤ t < nsub`) at bit
-`cw * (t xor (nsub - 1)) = cw * (nsub - 1 - t)` -/
+`cw * (t xor (nsub - 1)) = cw * (nsub - 1 - t)`, i.e. lane `i` holds field `nsub - 1 - i` -/
 def smallRel (P : SmallParams) (ob : Nat → Nat) (w0 : Nat) : Nat :=
-  (List.range (P.nsub - 1)).foldl
-    (fun acc t => acc + (ob (w0 + (t + 1) * P.wps) - ob w0) * 2 ^ (P.cw * (P.nsub - 2 - t))) 0
+  packL P.cw ((List.range (P.nsub - 1)).map (fun i => ob (w0 + (P.nsub - 1 - i) * P.wps) - ob w0))
 
 /-- `RankSmall::new` -/
 def smallView (P : SmallParams) (ob : Nat → Nat) (len : Nat) : SmallView :=
